@@ -25,6 +25,9 @@ type Cfg struct {
 	// NoNames makes every value that may be unnamed unnamed (numbering profile bias).
 	UnnamedBias int // 0..10: probability/10 that a local is unnamed
 	UnnamedGlobals bool
+	// Big asks for at least 8 entities in each top-level map of the translator
+	// (types, comdats, globals, attribute groups, named metadata, metadata).
+	Big bool
 }
 
 // DefaultCfg returns the 'full' profile.
